@@ -43,8 +43,8 @@ func upgradeVestingAccounnt(ctx sdk.Context, appKeepers cfeupgradetypes.AppKeepe
 		ctx.Logger().Info("account is not ContinuousVestingAccount", "address", address)
 		return nil
 	}
-	startTime := time.Unix(vestingAccount.StartTime, 0)
-	endTime := time.Unix(vestingAccount.EndTime, 0)
+	startTime := time.Unix(vestingAccount.StartTime, 0).UTC()
+	endTime := time.Unix(vestingAccount.EndTime, 0).UTC()
 	vestingAccount.StartTime = startTime.AddDate(1, 0, 0).Unix()
 	vestingAccount.EndTime = endTime.AddDate(1, 0, 0).Unix()
 	appKeepers.GetAccountKeeper().SetAccount(ctx, vestingAccount)
